@@ -101,6 +101,9 @@ thread_local! {
     /// by-path set/put sources: false = a NamedTempFile (mode 0600), true = a file made with File::create
     /// (mode 0666 & !umask, as an ordinary application would)
     pub static PLAIN_FILE_SOURCE: std::cell::Cell<bool> = const { std::cell::Cell::new(false) };
+    /// (with PLAIN_FILE_SOURCE) the application keeps a second hard link to the file it hands over (it linked its
+    /// build output next to the cache instead of copying it)
+    pub static SOURCE_EXTRA_LINK: std::cell::Cell<bool> = const { std::cell::Cell::new(false) };
     /// by-path set/put sources: permission bits the application gives the file before handing it over (0 = leave as created)
     pub static SOURCE_MODE: std::cell::Cell<u32> = const { std::cell::Cell::new(0) };
 }
@@ -493,7 +496,17 @@ fn exec_inner(cache: &Cache, dirs: &Dirs, op: &Op, opts: &ExecOpts, out: &mut Ou
                 return Res::Err(e.kind(), e.raw_os_error(), format!("app source: {}", e));
             }
             out.source = Some(path.clone());
+            let keep = dirs.app_tmp.join(format!("kept-link-{}", k.name.len()));
+            if SOURCE_EXTRA_LINK.with(|l| l.get()) {
+                crate::shim::passthrough(|| {
+                    let _ = std::fs::remove_file(&keep);
+                    std::fs::hard_link(&path, &keep).unwrap();
+                });
+            }
             let r = if matches!(op, Op::Set(..)) { cache.set(k.key(), &path) } else { cache.put(k.key(), &path) };
+            crate::shim::passthrough(|| {
+                let _ = std::fs::remove_file(&keep);
+            });
             let _ = std::fs::remove_file(&path);
             io_res(r, |_| Res::Unit)
         }
